@@ -53,7 +53,11 @@ def run(ctx, F):
                   found="%s under %s" % (s[-100:], guard_strs(fr, bb)), where=where(fr), key="C29.counter|free")
 
     # ---- unlink
-    rows = [(show(strip(k)), show(strip(v)), bb) for k, v, bb in plans.index_assignments(fr)]
+    def nm(x):
+        # `self.mut_self()` is the same map seen through its interior-mutability accessor; `*&x` is x
+        x = re.sub(r"\*?Map32::mut_self\(arg1\)", "arg1", x)
+        return re.sub(r"\(\(arg2 as _\) as _\)", "(arg2 as _)", x)
+    rows = [(nm(show(strip(k))), nm(show(strip(v))), bb) for k, v, bb in plans.index_assignments(fr)]
     ims = {c.bb + 1: show(strip(fr.flow.arg_tree(c, 0))) for c in live_calls(fr, name="index_mut")}
     NXT = "<Vec as Index>::index(arg1.next_link, (arg2 as _))"
     PRV = "<Vec as Index>::index(arg1.prev_link, (arg2 as _))"
@@ -61,7 +65,7 @@ def run(ctx, F):
     def find(table, key, val):
         out = []
         for c in live_calls(fr, name="index_mut"):
-            if show(strip(fr.flow.arg_tree(c, 0))).endswith("." + table) and show(strip(fr.flow.arg_tree(c, 1))) == key:
+            if nm(show(strip(fr.flow.arg_tree(c, 0)))).endswith("." + table) and nm(show(strip(fr.flow.arg_tree(c, 1)))) == key:
                 for k, v, bb in rows:
                     if bb == c.bb + 1 or (fr.cfg.dominates(c.bb, bb) and k == key):
                         if v == val:
@@ -73,7 +77,7 @@ def run(ctx, F):
         ok = len(hits) >= 1
         found = "%d site(s)" % len(hits)
         if ok:
-            gs = [(show(p.tree), p.val) for p in guards(fr, hits[0][1])]
+            gs = [(nm(show(p.tree)), p.val) for p in guards(fr, hits[0][1])]
             ok = gs == [(cond, True)]
             found = str(gs)[:240]
         ctx.judge(ok, "C29.unlink", "free unlinks the region: %s" % what, expected="exactly under %s (independent of the other neighbour)" % cond, found=found, where=where(fr), key="C29.unlink|" + what[:9])
@@ -83,7 +87,7 @@ def run(ctx, F):
     if z and a and b:
         zb = min(bb for _, _, bb in z)
         after = fr.cfg.reachable_from(zb) | {zb}
-        reads = [c for c in live_calls(fr, name="index") if show(strip(fr.flow.arg_tree(c, 0))) in ("arg1.next_link", "arg1.prev_link") and show(strip(fr.flow.arg_tree(c, 1))) == "(arg2 as _)"]
+        reads = [c for c in live_calls(fr, name="index") if nm(show(strip(fr.flow.arg_tree(c, 0)))) in ("arg1.next_link", "arg1.prev_link") and nm(show(strip(fr.flow.arg_tree(c, 1)))) == "(arg2 as _)"]
         ctx.judge(all(bb not in after for _, bb in a + b) and len(reads) == 2 and all(fr.cfg.dominates(c.bb, zb) for c in reads), "C29.unlink",
                   "the region's links are read and the neighbours re-linked before the freed head's links are zeroed", expected="reads of next/prev dominate the zeroing; no re-link after it",
                   found="zero at bb%d, reads at %s, re-links at %s" % (zb, [c.bb for c in reads], [bb for _, bb in a + b]), where=where(fr), key="C29.unlink|order")
